@@ -184,9 +184,10 @@ def guard_rules(ctx):
         # stated on the Ok(..) return instead of on "every accepting return")
         none = [e for e in g.edges if e.cond[0] == "variant" and e.cond[3] and
                 ((e.cond[2] == "None" and Call("from_float", Arg(1))(e.cond[1])) or
-                 (e.cond[2] == "Break" and Mentions(Or(Call("ok_or", Call("from_float", Arg(1))), Call("ok_or_else", Call("from_float", Arg(1)))))(e.cond[1])))]
+                 (e.cond[2] == "Break" and e.cond[1][0] == "call" and e.cond[1][2] and
+                  Or(Call("ok_or", Call("from_float", Arg(1))), Call("ok_or_else", Call("from_float", Arg(1))))(e.cond[1][2][0])))]
         key = "%s:%s:special-floats-refused" % (rule, f.id)
-        if len(none) == 1 and oks and not any(rd.kind == "ok" for rd in none[0].leads):
+        if none and oks and not any(rd.kind == "ok" for e in none for rd in e.leads):
             ctx.ok(rule, key, "from_float(value) is None (NaN / infinite) cannot reach the Ok return", loc=f.loc)
         else:
             ctx.bad(rule, key, "Rational::try_from(f32): NaN / infinite are not refused", loc=f.loc)
